@@ -3,7 +3,7 @@ CONSTANTS
  Setups <- S_dupchain
  Acts <- A_dupchain
  Bufs <- B_size
- MaxSteps = 4
+ MaxSteps = 3
  MaxIn = 2
  Variant = "ok"
  CheckEpi = TRUE
